@@ -49,6 +49,8 @@ template <int S> struct Runner {
       expect_bits("shift-energy", p, {s2.getEnergy()}, {E});
       expect_bits("shift-energy-grad", p, flat(s2.getEnergyGrad(), N), flat(EG, N));
       expect_bits("shift-propagate", p, flat(s2.propagateGrad(gdC, gdT), N), flat(PG, N));
+      expect_bits("shift-energy-partials", p, matvec(s2.getEnergyPartialGradByCoeffs()), matvec(sp.getEnergyPartialGradByCoeffs()));
+      { Eigen::VectorXd a = s2.getEnergyPartialGradByTimes(), b2 = sp.getEnergyPartialGradByTimes(); expect_bits("shift-energy-partials", p, std::vector<double>(a.data(), a.data() + a.size()), std::vector<double>(b2.data(), b2.data() + b2.size())); }
       // the same shift applied by update() on an existing object (same N, nothing resized) gives the same trajectory
       { Sp s3 = sp; (void)s3.getTrajectory().evaluate(s3.getStartTime(), 0); s3.update(q.T, q.P, q.t0, q.bc); ++c.st.comparisons;
         if (!mat_bits_equal(s3.getTrajectory().getCoefficients(), s2.getTrajectory().getCoefficients()) || s3.getTrajectory().getBreakpoints() != s2.getTrajectory().getBreakpoints() || s3.getCumulativeTimes() != s2.getCumulativeTimes() || s3.getStartTime() != s2.getStartTime() || s3.getEndTime() != s2.getEndTime())
